@@ -18,6 +18,7 @@ type Clause struct {
 
 type LoopSpec struct {
 	Invariants []*Clause
+	Steps      []*Clause // two-state per-iteration conditions: old(E) is E at the head of the iteration
 	Decreases  *Clause
 	Frame      bool
 	FrameWhere string
@@ -374,6 +375,8 @@ func (cs *ContractSet) ParseContractFile(path, pkgPath string) error {
 					ls.Invariants = append(ls.Invariants, c)
 				case "decreases":
 					ls.Decreases = c
+				case "step":
+					ls.Steps = append(ls.Steps, c)
 				default:
 					return fmt.Errorf("%s: bad loop clause kind %q", where, kw2)
 				}
